@@ -75,6 +75,7 @@ def work(chunk, extra):
     for (t, x, a) in chunk:
         dec_common.set_table(s_, t)
         tb = core.T(t)
+        r_plain0 = dec_common.impl_decode(s_, x, False, a) if extra and extra.get('plain_first') and (sum(map(ord, x)) % 2 == 0) else None
         r_flag = dec_common.impl_decode(s_, x, True, a)
         r_plain = dec_common.impl_decode(s_, x, False, a)
         m_flag = dec_common.model_decode_canon(d.one(dec_common.model_decode_req(tb, x, True, a)), a)
@@ -82,7 +83,7 @@ def work(chunk, extra):
         toks = dec_side.tokens_of(x)
         xm = ''.join(modern(tk) for tk in toks)
         r_mod = dec_common.impl_decode(s_, xm, False, a)
-        res.append((r_flag, r_plain, m_flag, m_plain, xm, r_mod))
+        res.append((r_flag, r_plain, m_flag, m_plain, xm, r_mod, r_plain0))
     return res
 
 
@@ -119,8 +120,8 @@ def run(rep, tier, seed, b):
                     toks[i] = rng.choice(gens.LEGACY)
             x = ''.join(toks)
         items.append((t, x, a))
-    res = core.pmap('p_c18', 'work', items, chunk=500)
-    for it, (r_flag, r_plain, m_flag, m_plain, xm, r_mod) in zip(items, res):
+    res = core.pmap('p_c18', 'work', items, extra={'plain_first': True}, chunk=500)
+    for it, (r_flag, r_plain, m_flag, m_plain, xm, r_mod, r_plain0) in zip(items, res):
         rep.evaluations += 1
         rep.impl_traces += 3
         t, x, a = it
@@ -131,6 +132,11 @@ def run(rep, tier, seed, b):
             rep.disagreements.append({'op': 'decoder', 'input': inp, 'impl': r_plain, 'model': m_plain})
         leg = has_legacy(x)
         rep.count('with-legacy' if leg else 'modern-only')
+        if r_plain0 is not None:
+            rep.count('plain call made before and after the flagged call')
+            if r_plain0 != r_plain:
+                rep.oracle_failures.append({'clause': 'the flag of one call leaks into no other: decoder(x) is the same before and after decoder(x, compatible=True) in one process',
+                                            'input': inp, 'impl': [r_plain0, r_flag, r_plain], 'sequence': True})
         if not leg and r_flag != r_plain:
             rep.oracle_failures.append({'clause': 'without legacy symbols compatible=True returns exactly what decoder returns', 'input': inp, 'impl': [r_flag, r_plain]})
         # attribution tokens name the (modernised) symbols, so compare strings and error class
@@ -166,11 +172,15 @@ def run(rep, tier, seed, b):
 
 def replay(data):
     i = data['failure']['input']
+    # the plain call first (checksum made even by the work function's own rule or not: call it explicitly here)
+    s_ = sf()
+    dec_common.set_table(s_, i['table'])
+    first = dec_common.impl_decode(s_, i['selfies'], False, i.get('attribute', False))
     r = work([(i['table'], i['selfies'], i.get('attribute', False))], None)[0]
     def proj(x):
         return {'ok': x['ok'][0] if isinstance(x.get('ok'), list) else x.get('ok')} if 'ok' in x else x
-    return {'input': i, 'with_flag': r[0], 'plain': r[1], 'modernised': r[4], 'decoder_on_modernised': r[5],
-            'fails': proj(r[0]) != proj(r[5]) or (not has_legacy(i['selfies']) and r[0] != r[1])}
+    return {'input': i, 'plain_first': first, 'with_flag': r[0], 'plain': r[1], 'modernised': r[4], 'decoder_on_modernised': r[5],
+            'fails': proj(r[0]) != proj(r[5]) or (not has_legacy(i['selfies']) and r[0] != r[1]) or first != r[1]}
 
 
 def known(f):
